@@ -226,6 +226,47 @@ pub enum DOp {
     Reopen,
     /// db.close + connect + open (clean)
     Reconnect,
+    /// close_collection, then open with a different index set: indexes leaving
+    /// the set are removed, indexes entering it are created and backfilled
+    /// (generated by the sequential phases only)
+    Reindex { set: u8 },
+}
+
+/// The index set in effect after `op`, given the set before it. The name index
+/// always stays; the unique composite index is never *added* over existing
+/// documents (creating a unique index over duplicates legitimately fails).
+pub fn indexes_after(cur: u8, op: &DOp) -> u8 {
+    match op {
+        DOp::Reindex { set } => (*set | IX_NAME) & !(IX_AGE_SCORE & !cur),
+        _ => cur,
+    }
+}
+
+/// The index set in effect once the first `upto` operations have run.
+pub fn indexes_at(initial: u8, ops: &[DOp], upto: usize) -> u8 {
+    ops.iter().take(upto).fold(initial, indexes_after)
+}
+
+pub async fn remove_indexes(c: &mut Collection, mask: u8) -> Result<(), DBError> {
+    if mask & IX_AGE != 0 {
+        c.remove_btree_index(&["age"]).await?;
+    }
+    if mask & IX_SCORE != 0 {
+        c.remove_btree_index(&["score"]).await?;
+    }
+    if mask & IX_TAGS != 0 {
+        c.remove_btree_index(&["tags"]).await?;
+    }
+    if mask & IX_AGE_SCORE != 0 {
+        c.remove_btree_index(&["age", "score"]).await?;
+    }
+    if mask & IX_BODY != 0 {
+        c.remove_bm25_index(&["body"]).await?;
+    }
+    if mask & IX_VEC != 0 {
+        c.remove_hnsw_index("embedding").await?;
+    }
+    Ok(())
 }
 
 impl DOp {
